@@ -178,6 +178,8 @@ class FST:
         output_word : iterable of any
             The translation of the input word
         """
+        # The word is sliced below: any iterable is accepted
+        input_word = list(input_word)
         # (remaining in the input, generated so far, current_state)
         to_process = []
         seen_by_state = {state: [] for state in self.states}
